@@ -5,7 +5,7 @@
    spec_case : what the implementation did is what a finite map would do
                (reference association list), evictions never take the protected
                key, Len = number of entries, capacity respected. *)
-From Sdns Require Export Common.Base Gen.C16 C16.Model C16.Conc C16.Limiter C16.Lin.
+From Sdns Require Export Common.Base Gen.C16 C16.Model C16.Conc C16.Limiter C16.Lin C16.Wrap.
 Open Scope nat_scope.
 
 (* ---------------------------------------------------------------- cases *)
@@ -45,6 +45,14 @@ Inductive gact := Rel (j : nat) | Go (t : nat).
 Inductive gstep :=
 | Grant (a : gact) (count : Z) (segs : list (nat * list (N * N))) (done : list bool) (waiting : list (nat * nat)).
 
+(* calls of the expiring wrappers middleware/cache PositiveCache / NegativeCache (Wrap.v):
+   Get with the identity of the entry it returned, Set with the keys that vanished, Remove *)
+Inductive wop :=
+| WGet (k : N) (r : option N)
+| WSet (k v : N) (gone : list N)
+| WRem (k : N).
+Inductive wstep := Ws (o : wop) (len : Z).      (* observed Len() after the call *)
+
 Inductive case :=
   (* NewUInt64Map(cap): observed len(data), growAt; history; final non-empty slots (index,key,value), final len(data) *)
 | CaseTab (cap n0 g0 : Z) (steps : list tstep) (final : list (N * N * N)) (nfinal : Z)
@@ -67,7 +75,14 @@ Inductive case :=
      Get / Add / Remove / CompareAndSwap / CompareAndDelete with its result and the
      logical-clock stamps taken before the call and after the return; thread ids are
      the workers, the last reads (one per key) were made after every worker returned *)
-| CaseLin (ops : list hop).
+| CaseLin (ops : list hop)
+  (* NewPositiveCache / NewNegativeCache (size): calls that ran to completion, each with Len()
+     afterwards; [exp] = the identities of the entries that had expired before the history began
+     (every other entry stays fresh for hours) *)
+| CaseWrap (size : Z) (exp : list N) (steps : list wstep)
+  (* a concurrent history of wrapper calls recorded on one PositiveCache / NegativeCache (real
+     goroutines): Set k e = LStore, Remove k = LRem, Get k -> r = LGet, with logical-clock stamps *)
+| CaseWLin (exp : list N) (ops : list hop).
 
 (* ------------------------------------------------------------- helpers *)
 Definition dig_p : N := 1099511628211%N.
@@ -329,6 +344,26 @@ Fixpoint lim_run (ms : Z) (st : lstore) (steps : list (lop * Z)) : bool :=
       end
   end.
 
+(* ------------------------------------------- check: expiring wrappers *)
+Definition exp_of (exp : list N) (v : N) : bool := lmem v exp.
+Definition wrap_apply (ex : N -> bool) (cap : Z) (m : segmap) (o : wop) : option segmap :=
+  match o with
+  | WGet k r => let '(m', r') := w_get ex go_mix go_sidx m k in if optN_eqb r r' then Some m' else None
+  | WSet k v gone =>
+      let m' := w_set go_mix go_sidx go_eoff m k v cap in
+      if forallb (fun g => match cs_get m' g with None => true | Some _ => false end) gone then Some m' else None
+  | WRem k => Some (w_remove go_mix go_sidx m k)
+  end.
+Fixpoint wrap_run (ex : N -> bool) (cap : Z) (m : segmap) (steps : list wstep) : bool :=
+  match steps with
+  | [] => seg_ok m
+  | Ws o len :: rest =>
+      match wrap_apply ex cap m o with
+      | None => false
+      | Some m' => if Z.eqb (sm_len m') len then wrap_run ex cap m' rest else false
+      end
+  end.
+
 Definition check_case (c : case) : bool :=
   match c with
   | CaseTab cap n0 g0 steps final nfinal =>
@@ -356,6 +391,13 @@ Definition check_case (c : case) : bool :=
          legal history of the sequential map specification (Lin.legal) — the specification
          every schedule of the interleaving model meets (Proofs_lin.runs_linearize) *)
       linearizable ops
+  | CaseWrap size exp steps =>
+      let '(m0, cap) := new_cache size in wrap_run (exp_of exp) cap m0 steps
+  | CaseWLin exp ops =>
+      (* the wrapper calls read through the fresh view (a Set of an expired entry is a removal)
+         have a linearization that is legal for the same Lin.legal — what
+         Proofs_wrap.wrappers_linearize proves for every schedule of the interleaving model *)
+      linearizable (map (wview_hop (exp_of exp)) ops)
   end.
 
 (* ------------------------------------------------------------- the spec *)
@@ -538,6 +580,26 @@ Definition lin_spec (ops : list hop) : bool :=
              | _ => true
              end) ops.
 
+(* The wrappers judged as a bounded map of entries whose readers never see an expired one: a
+   Get yields the fresh part of the stored entry and removes at most that expired entry, a Set
+   evicts only other present keys and keeps a map within its capacity within it, Len = entries. *)
+Fixpoint wrap_spec_run (ex : N -> bool) (cap : Z) (m : ref) (steps : list wstep) : bool :=
+  match steps with
+  | [] => true
+  | Ws o len :: rest =>
+      match match o with
+            | WGet k r =>
+                if optN_eqb r (fresh ex (r_get m k))
+                then Some (match r_get m k with Some v => if ex v then r_del m k else m | None => m end)
+                else None
+            | WSet k v gone => seg_spec_apply m (SSwc k v cap gone)
+            | WRem k => Some (r_del m k)
+            end with
+      | None => false
+      | Some m' => Z.eqb (r_len m') len && wrap_spec_run ex cap m' rest
+      end
+  end.
+
 Definition spec_case (c : case) : bool :=
   match c with
   | CaseTab _ _ _ steps _ _ => tab_spec_run [] steps
@@ -547,4 +609,6 @@ Definition spec_case (c : case) : bool :=
   | CaseSched prefix progs steps _ _ => sched_spec prefix progs steps
   | CaseLim ms steps => lim_spec_run ms [] steps
   | CaseLin ops => lin_spec ops
+  | CaseWrap size exp steps => wrap_spec_run (exp_of exp) (snd (new_cache size)) [] steps
+  | CaseWLin exp ops => lin_spec (map (wview_hop (exp_of exp)) ops)
   end.
